@@ -173,6 +173,28 @@ def pooledVariance (exch : Obj α → Obj α) (blocks : List (List (α × α))) 
 def splitVariance (size : Nat) (xs : List (α × α)) : Option (Val α) :=
   pooledVariance ser (partition size xs)
 
+/-! which posterior samples the post-processing uses: `Optimizer.sample_parameters` / `taurex.util.util.random_int_iter`
+    and the route of the option `sigma_fraction` from a concrete optimizer's constructor to the base class -/
+
+/-- what a concrete optimizer (`NestleOptimizer`, `MultiNestOptimizer`, `PolyChordOptimizer`, …) built with its own
+    constructor holds as `_sigma_fraction`: the `sigma_fraction` it was given (keyword or `[Optimizer]` entry of the par
+    file), the documented default (0.1) when none was given -/
+def heldFraction (dflt : α) (given : Option α) : α := given.getD dflt
+
+/-- `random_int_iter(total, fraction)`: `n_points = int(total*fraction)` (`ofNat` = int → float, `toInt` = `int(·)` on a
+    non-negative float: both external) -/
+def drawCount (ofNat : Nat → α) (toInt : α → Nat) (total : Nat) (fraction : α) : Nat := toInt (ofNat total * fraction)
+
+/-- `Optimizer.sample_parameters(solution)`: `draw` = `random.sample(range(n), n_points)` (an external random draw of
+    distinct indices); every drawn sample is yielded once, its weight raised by the floor `1e-300` -/
+def sampleParameters (draw : List Nat) (floor : α) (samples : List (α × α)) : List (α × α) :=
+  draw.filterMap (fun i => samples[i]?.map (fun p => (p.1, p.2 + floor)))
+
+/-- `generate_profiles` of one quantity on `size` ranks: the list drawn on rank 0 and broadcast, strided over the ranks,
+    streamed, pooled -/
+def postProcess (size : Nat) (draw : List Nat) (floor : α) (samples : List (α × α)) : Option (Val α) :=
+  splitVariance size (sampleParameters draw floor samples)
+
 /-! two-pass reference statistics of a sample list -/
 
 def sumBy (f : α × α → α) (l : List (α × α)) : α := l.foldl (fun s p => s + f p) 0
